@@ -72,7 +72,7 @@ const l2Rule = " || L2: scenario k of seed s (one child process each) is a pure 
 
 // L2Describe appends the L2 part's rule and assumptions to the run.
 func L2Describe(r *evid.Run) {
-	r.Rule(componentRule + l2Rule)
+	r.Rule(componentRule + l2Rule + l2PersistRule)
 	r.Assume("L2: the simulated peers implement the protocol subset of DESIGN appendix B and serve the generator's blocks and ground-truth filters; " +
 		"client knobs (QueryTimeout etc.) are the shortened exported configuration values of internal/l2")
 	r.Assume("L2: the start block handed to the oracle is the block of the initially synced chain at the start height (the rescan is created after " +
@@ -86,17 +86,19 @@ func L2Describe(r *evid.Run) {
 // and a few written-out scenarios into r. The caller calls r.Finish.
 func L2Run(r *evid.Run) {
 	L2Describe(r)
-	n := r.Pick(L2QuickScenarios, L2ThoroughScenarios)
+	// The scenarios of this file first, then the l2-persist family
+	// (l2persist.go); L2Dispatch maps an index to its family.
+	n := r.Pick(L2QuickScenarios, L2ThoroughScenarios) + r.Pick(L2PersistQuick, L2PersistThorough)
 	var mu sync.Mutex
 	var samples []any
 	exits := map[string]int{}
-	l2.RunScenariosCB(r, n, L2ChildTimeout, L2Scenario, func(res *l2.Result) {
+	l2.RunScenariosCB(r, n, L2ChildTimeout, L2Dispatch(r), func(res *l2.Result) {
 		mu.Lock()
 		defer mu.Unlock()
 		if res.Sample != nil && len(samples) < 4 {
 			samples = append(samples, res.Sample)
 		}
-		if i := strings.LastIndex(res.Fingerprint, "|exit="); i >= 0 {
+		if i := strings.LastIndex(res.Fingerprint, "|exit="); i >= 0 && !strings.HasPrefix(res.Fingerprint, L2Persist) {
 			exits[res.Fingerprint[i+6:]]++
 		}
 	})
